@@ -6,6 +6,7 @@ import VlsModel.Gen.FnApproveTrait
 import VlsModel.Gen.FnNodeAdd
 import VlsModel.Gen.FnNodeVelocity
 import VlsModel.Gen.FnApproverMemo
+import VlsModel.Gen.FnNodeStateNew
 import VlsModel.Lemmas.FnGen
 /-
 C12 — the hand-written model `Model/Velocity.lean` proved equal to the function bodies that
@@ -837,5 +838,24 @@ example : MemoApprover.approve_keysend (A := Unit) (Invoice := Unit) (PaymentHas
     ∧ MemoApprover.approve_keysend (A := Unit) (Invoice := Unit) (PaymentHash := Nat) (Transaction := Unit)
       (fun _ _ _ => false) ⟨(), [.Invoice (), .KeySend 7 500]⟩ 7 501 = .ok (⟨(), []⟩, false) := ⟨rfl, rfl⟩
 end ApproverMemo
+
+/-! ## Round 10 (b4): `NodeState::new` (node.rs; area `NodeStateNew`, `fn_targets/NodeStateNew.b4.json`)
+
+The constructor of a fresh node state: the two controls handed in (`make_velocity_control` / `make_fee_velocity_control`) go into
+their own positions, everything else is empty.  (`NodeState::restore` translates with `collect()` externals but the generated closure
+does not elaborate — left for the translator builder; its control positions stay with `C11_fn_kvv_get_nodes` + census.) -/
+section NodeStateNew
+open VlsModel.Gen
+open VlsModel.Gen.FnNodeStateNew (NodeState Allowable)
+variable {PaymentHash ScriptBuf Xpub PublicKey : Type}
+
+theorem C12_fn_node_state_new (emptyStr : String) (setOf : List (Allowable ScriptBuf Xpub PublicKey) → List (Allowable ScriptBuf Xpub PublicKey))
+    (vc fvc : FnNodeStateNew.VelocityControl) (al : List (Allowable ScriptBuf Xpub PublicKey)) :
+    let st : NodeState PaymentHash ScriptBuf Xpub PublicKey := NodeState.new emptyStr setOf vc fvc al
+    st.velocity_control = vc ∧ st.fee_velocity_control = fvc ∧ st.invoices = [] ∧ st.issued_invoices = [] ∧ st.payments = [] ∧
+    st.excess_amount = 0 ∧ st.dbid_high_water_mark = 0 ∧ st.allowlist = setOf al :=
+  ⟨rfl, rfl, rfl, rfl, rfl, rfl, rfl, rfl⟩
+
+end NodeStateNew
 
 end VlsModel.Props.C12Fn
